@@ -96,7 +96,7 @@ CHECKS["C08"] = dict(
 CHECKS["C12"] = dict(
     category="model_checking",
     technique="explicit-state search (BX) over all operation histories on the real SessionPool with real sessions under virtual time, checked step by step against a reference model and invariants",
-    text="Every history of depth 5 (thorough 6) over {new, new+stream, get, open(s), fin(s), die(s), cleanup_expired, advance(I/2 | I | T)} with <= 2 (3) sessions x 4 (6) configurations of (check interval, idle timeout, min_idle incl. 0 and timeout < interval), replayed from scratch on fresh real objects; after every step: Get never returns a closed or already handed-out session and never ignores an available one, housekeeping never closes a session with an open stream or one that was handed out, the minimum number of idle sessions survives each pass, idle_count agrees with the model; after timeout + 2 intervals of inactivity no surplus idle session remains. The alphabet also has put(s) (a handed-out session returned to the pool); a pool-only sub-alphabet {new, get, put, advance} is explored two levels deeper; after every reaper pass no stream-less pooled session idle for longer than the timeout survives beyond the minimum.",
+    text="Every history of depth 5 (thorough 6) over {new, new+stream, get, open(s), fin(s), die(s), cleanup_expired, advance(I/2 | I | T)} with <= 2 (3) sessions x 4 (6) configurations of (check interval, idle timeout, min_idle incl. 0 and timeout < interval), replayed from scratch on fresh real objects; after every step: Get never returns a closed or already handed-out session and never ignores an available one, housekeeping never closes a session with an open stream or one that was handed out, the minimum number of idle sessions survives each pass, idle_count agrees with the model; after timeout + 2 intervals of inactivity no surplus idle session remains. The alphabet also has put(s) (a handed-out session returned to the pool); a pool-only sub-alphabet {new, get, put, advance} is explored two levels deeper; after every reaper pass no stream-less pooled session idle for longer than the timeout survives beyond the minimum. DX: get / add / count / cleanup / a dying session queued in every order of 2..4 (5) events on the pool lock while the periodic reaper is stalled inside close() of an expired session, with a second expired session behind it; nothing handed out during the pass may be closed by it afterwards.",
     note="Trusted: virtual clock, sessions over vpipes with a scripted peer; 'in use' = stream table non-empty. Two keys caused by 'session in the idle map while in use' are open known findings.",
     design="DESIGN.md §6 C12",
 )
